@@ -1343,7 +1343,7 @@ func reconnectCases(run *vk.Run, small bool) []rcfg {
 		}
 		return out
 	}
-	for rep := 0; rep < 2; rep++ {
+	for rep := 0; rep < 4; rep++ {
 		for _, tr := range transportSets {
 			for _, j := range jit {
 				for _, kind := range []int{oClosed, oReset, o503} {
@@ -2087,7 +2087,7 @@ func bufferCases(run *vk.Run, small bool) []bcfg {
 		}
 		return out
 	}
-	for rep := 0; rep < 2; rep++ {
+	for rep := 0; rep < 4; rep++ {
 		for _, tr := range transportSets {
 			for nsps := 1; nsps <= 3; nsps++ {
 				for mi, mix := range mixes {
@@ -2109,19 +2109,32 @@ func bufferCases(run *vk.Run, small bool) []bcfg {
 
 type task struct {
 	weight int
+	slowOK bool // the stall trials wait 20 s by design
 	f      func()
 }
 
-func runPool(tasks []task, workers int) {
+// runPool runs the trials on a fixed number of workers. Circuit breaker for a badly broken tree: a trial
+// normally takes 1-6 s; one that needed more than 15 s sat out a watchdog. After 6 of those the remaining
+// trials are skipped (and reported), so that the run stays bounded.
+func runPool(run *vk.Run, tasks []task, workers int) {
 	sort.SliceStable(tasks, func(i, j int) bool { return tasks[i].weight > tasks[j].weight })
 	ch := make(chan task)
 	var wg sync.WaitGroup
+	var slow, skipped atomic.Int32
 	for i := 0; i < workers; i++ {
 		wg.Add(1)
 		go func() {
 			defer wg.Done()
 			for t := range ch {
+				if slow.Load() >= 6 {
+					skipped.Add(1)
+					continue
+				}
+				t0 := time.Now()
 				t.f()
+				if !t.slowOK && time.Since(t0) > 15*time.Second {
+					slow.Add(1)
+				}
 			}
 		}()
 	}
@@ -2130,6 +2143,10 @@ func runPool(tasks []task, workers int) {
 	}
 	close(ch)
 	wg.Wait()
+	if n := skipped.Load(); n > 0 {
+		run.Count("trials_skipped_after_6_trials_hit_a_watchdog", int64(n))
+		run.Inconclusive(fmt.Sprintf("%d trials skipped: 6 earlier trials each needed more than 15 s (watchdogs)", n))
+	}
 }
 
 // replay re-runs the case recorded in a replay file (three times; the verdicts are re-derived, not copied).
@@ -2228,7 +2245,7 @@ func main() {
 		stalls = [][]string{{"websocket"}, {"polling"}, {"polling", "websocket"}, {"websocket"}, {"polling"}, {"polling", "websocket"}}
 	}
 	for i, tr := range stalls {
-		tasks = append(tasks, task{weight: 100, f: func() { runStall(run, cy, 900+i, tr) }})
+		tasks = append(tasks, task{weight: 100, slowOK: true, f: func() { runStall(run, cy, 900+i, tr) }})
 	}
 	for _, c := range reconnectCases(run, small) {
 		wgt := 10 + 3*len(c.Restores)
@@ -2245,7 +2262,7 @@ func main() {
 		workers = 6
 	}
 	run.Logf("parts 2+3: %d trials on %d workers", len(tasks), workers)
-	runPool(tasks, workers)
+	runPool(run, tasks, workers)
 
 	// the hook is process-wide: the forced-window trials run alone
 	for _, tr := range transportSets {
